@@ -4,6 +4,7 @@ import (
 	"fmt"
 	"os"
 	"path/filepath"
+	"runtime/debug"
 	"strings"
 
 	"golang.org/x/telemetry/internal/verifsim/hlib"
@@ -61,7 +62,12 @@ func scenarioC06Corruption(c *hlib.RunCtx) *hlib.Violation {
 	wk := fmt.Sprintf("%d\n", t.Draw(7))
 	os.MkdirAll(w.local, 0777)
 	os.WriteFile(filepath.Join(w.local, "weekends"), []byte(wk), 0666)
-	_, meta, ok := learnMeta(w, buildInfo, wk)
+	bi := buildInfo
+	if t.Bool(1, 2) {
+		bi = &debug.BuildInfo{GoVersion: "go1.23.1", Path: "example.com/" + strings.Repeat("p", 1+t.Draw(70)) + "/prog",
+			Main: debug.Module{Path: "example.com/prog", Version: "v1.2.3"}}
+	}
+	_, meta, ok := learnMeta(w, bi, wk)
 	if !ok {
 		panic("learnMeta failed")
 	}
